@@ -174,7 +174,7 @@ func genTexts(r *hlib.Rand, n int) [][]byte {
 	// very long tokens
 	for _, s := range []string{"a", "é", "日", "ｶﾞ", "ب", "x1", "aB", "ا"} {
 		for _, k := range []int{255, 256, 1000, 4000} {
-			if k >= 4000 && len(s) > 2 {
+			if k >= 1000 && len(s) > 1 {
 				continue
 			}
 			add(strings.Repeat(s, k))
@@ -323,12 +323,25 @@ func (h) Gen(r *hlib.Rand, tier string, scale int, emit func(string)) {
 		}
 	}
 
+	// 1b. pinned inputs: the shapes behind the recorded findings and their neighbours (always exercised)
+	for _, l := range []string{
+		"pipe single reverse ff", "pipe renonspace reverse 61ff62", "pipe unicode reverse 61ff62", "pipe single reverse c3a9cc81e697a5",
+		"pipe single camel fe", "pipe single camel 616220fe206364", "pipe unicode lower,camel c8bac8ba", "pipe unicode camel c8bac8ba",
+		"pipe unicode camel 48545450536572766572324766f", "pipe ws camel 48545450536572766572324766",
+		"pipe unicode nfkd,dict:1:1:3:0:d8b5+d984 efb7ba", "pipe unicode dict:1:1:3:0:c3a9+61 c3a9c3a961",
+		"pipe unicode cjk:0 e697a5ffe69cac", "pipe renonspace cjk:0 e697a5ff", "pipe renonspace porter,cjk:0 e697a5ff", "pipe renonspace lower,cjk:1 e697a5e69cacff20e8aa9e", "pipe unicode cjk:1 e697a5e69cace8aa9e", "pipe unicode width,cjk:0 efbdb6efbe9eefbdb2",
+		"flt cjk:0 4 e697a5ff,0,4,1,1,0", "flt cjk:1 6 e697a5,0,3,1,1,0;e69cac,3,6,1,1,0",
+		"flt shingle:2:2:0:-:- 8 -,5,8,1,0,0;-,0,3,1,0,0", "flt dict:1:1:1:0:62 1 6162,0,1,1,0,0",
+	} {
+		emit(l)
+	}
+
 	// 2. modelled tokenizers and the other pure tokenizers on every text
 	for _, t := range texts {
 		for _, k := range []string{"letter", "ws", "alnum", "single"} {
 			emit("tok " + k + " " + hexOf(t))
 		}
-		for _, k := range []string{"unicode", "web", "reword", "renonspace", "excletter"} {
+		for _, k := range []string{"unicode", "web", "reword", "renonspace", "excletter", "excws"} {
 			emit("tokx " + k + " " + hexOf(t))
 		}
 	}
@@ -358,7 +371,7 @@ func (h) Gen(r *hlib.Rand, tier string, scale int, emit func(string)) {
 	arts := hexList([]string{"l", "d", "qu", "j", "m", "dell", "all", "un", "L", "é", "日"})
 	stops := hexList([]string{"the", "and", "a", "ab", "и", "في", "日本", ""})
 	grid = append(grid, "unique", "reverse", "apos", "camel", "cjk:0", "cjk:1", "elision:"+arts, "elision:-", "stop:"+stops, "kwmark:"+stops)
-	toks := []string{"ws", "unicode", "single", "letter", "web", "renonspace"}
+	toks := []string{"ws", "unicode", "single", "letter", "web", "renonspace", "excws"}
 	post := []string{"", "", "", "lower", "nfkd", "width", "porter"}
 	for i := 0; i < nStage*6; i++ {
 		t := texts[r.Intn(len(texts))]
@@ -405,7 +418,11 @@ func (h) Gen(r *hlib.Rand, tier string, scale int, emit func(string)) {
 		s := &scripts[r.Intn(len(scripts))]
 		text := []byte(s.text(r, r.Range(0, 8)))
 		ts := perturb(r, splitWords(text), r.Chance(10))
-		emit(fmt.Sprintf("tf %d %d %s", r.Intn(4)/3^1, []int{0, 0, 1, 7, 100, 101}[r.Intn(6)], streamOf(ts)))
+		tv := 1
+		if r.Chance(25) {
+			tv = 0
+		}
+		emit(fmt.Sprintf("tf %d %d %s", tv, []int{0, 0, 1, 7, 100, 101}[r.Intn(6)], streamOf(ts)))
 	}
 	for i := 0; i < nStage*2; i++ {
 		nf := r.Range(1, 4)
